@@ -67,7 +67,7 @@ R_t0 == (as :> StrRegs) @@ (ai :> PairRegs) @@ (al :> ListRegs)
 U_t1 == {as, ai, bl, bs}
 V_t1 == (as :> StrVals) @@ (ai :> {<<"=h", "=p">>}) @@ (bl :> {<<>>, <<"=y">>}) @@ (bs :> {<<"=1h">>, <<"=60m">>})
 R_t1 == (as :> StrRegs) @@ (ai :> {Pair("=h", "=p")}) @@ (bl :> {List(<<"=x">>)})
-        @@ (bs :> {Typed("interval", NULL), Typed("interval", "=60m")})
+        @@ (bs :> {Typed("interval", "=60m")})
 
 (* t2: an object holding every leaf kind, and a string with the object's name next to it *)
 U_t2 == {ao, as, aas, aai, abl}
